@@ -120,11 +120,10 @@ def r_entry(chk, P, tier):
     chk.expect(ok and too_long, "parse_from_rfc3339", "parse_from_rfc3339: remainder check / TOO_LONG / to_datetime missing", loc=P.loc(fn))
 
 
-def r_year_box(chk, P, tier):
-    """RFC 3339 `date-fullyear = 4DIGIT`: exactly the years 0..=9999 take the plain four-digit form; the reader (and C09) rely on the same split"""
-    chk.rule("BOX.plain_year", "write_rfc3339 uses the plain four-digit year form (write_hundreds(year / 100), write_hundreds(year % 100)) exactly for 0..=9999", floor=1)
+def plain_year_boxes(P, fn):
+    """year intervals (from the path conditions) of the paths of `fn` that write the year as two digit pairs write_hundreds(year / 100), write_hundreds(year % 100)"""
     boxes = []
-    for p in Sym(P, WR).paths():
+    for p in Sym(P, fn).paths():
         ys = [x[2] for c in p.calls if isinstance(c[1], str) and c[1].endswith("write_hundreds") for x in walk_terms(c[2][1])
               if x[0] == "bin" and x[1] == "Div" and const_of(x[3]) == 100 and any(is_call(y, suffix="::year") for y in walk_terms(x[2]))]
         if not ys:
@@ -132,7 +131,14 @@ def r_year_box(chk, P, tier):
         box, other = cond_constraints(p.conds, {"year": ys[0]})
         boxes.append(tuple(box["year"]))
     if not boxes:
-        raise AnchorLost("write_rfc3339: no path writes the year as two digit pairs")
+        raise AnchorLost(fn + ": no path writes the year as two digit pairs")
+    return boxes
+
+
+def r_year_box(chk, P, tier):
+    """RFC 3339 `date-fullyear = 4DIGIT`: exactly the years 0..=9999 take the plain four-digit form; the reader (and C09) rely on the same split"""
+    chk.rule("BOX.plain_year", "write_rfc3339 uses the plain four-digit year form (write_hundreds(year / 100), write_hundreds(year % 100)) exactly for 0..=9999", floor=1)
+    boxes = plain_year_boxes(P, WR)
     lo = min((b[0] for b in boxes if b[0] is not None), default=None)
     hi = max((b[1] for b in boxes if b[1] is not None), default=None)
     ok = all(b[0] is not None and b[1] is not None for b in boxes) and (lo, hi) == (0, 9999)
